@@ -1,7 +1,10 @@
 """C06 — scaling, division and normalisation are exactly linear (1-D; ND / collection parts in c06 extras)."""
 from __future__ import annotations
 
+import contextvars
 import copy
+import random
+from collections import Counter
 from fractions import Fraction
 
 from .. import gen1, gennd
@@ -11,6 +14,81 @@ from .c14 import dy_bins
 
 INT_KINDS = ["pyint", "int64", "int32", "int16"]
 FLT_KINDS = ["pyfloat", "float64", "float32"]
+PLAIN_KINDS = set(INT_KINDS + FLT_KINDS)
+SCALINGS = ("mul", "imul", "div", "idiv")
+
+# `h /= Fraction(1, 2)` (also a complex divisor) on the unchanged library raises AFTER the contents and squared errors have
+# been divided, while the missed values and the statistics are still the old ones: a refused call that leaves the histogram
+# half scaled.  Reported; the in-place division by a Fraction stays out of the generator until it is triaged (the copying
+# `h / Fraction(1, 2)` is refused as well and leaves its operand alone: that one is generated).
+ENABLE_INPLACE_DIV_BY_FRACTION = False
+
+
+# ---------------------------------------------------------------------------------------------- factor carriers
+def is_carrier(k) -> bool:
+    return isinstance(k, str) and k not in PLAIN_KINDS and (":" in k or k in ("pybool", "npbool", "fraction", "decimal"))
+
+
+def model_kind(k: str):
+    """the numpy scalar type a reduction hands over ("red:<fn>:<dtype>"): what the model's NumKind can express"""
+    _, fn, dt = k.split(":")
+    return "float64" if fn == "mean" and dt.startswith("int") else dt
+
+
+def fits(f: Fraction, dt: str) -> bool:
+    """f is exactly representable in that numpy type (and so is its square when it is a narrow integer: the square of a
+    narrow numpy integer is taken of the python number, but the generators stay clear of that corner here)"""
+    import numpy as np
+    if dt.startswith("int"):
+        return f.denominator == 1 and abs(f) * abs(f) <= np.iinfo(dt).max
+    x = f.numerator / f.denominator
+    with np.errstate(all="ignore"):
+        y = np.dtype(dt).type(x)
+    return bool(np.isfinite(y)) and Fraction(float(y)) == f
+
+
+def power_of_two(f: Fraction) -> bool:
+    n, d = abs(f.numerator), f.denominator
+    return n > 0 and n & (n - 1) == 0 and d & (d - 1) == 0
+
+
+def decimal_ok(f: Fraction) -> bool:
+    d = f.denominator
+    return d & (d - 1) == 0 and d <= 2**16 and abs(f.numerator) < 10**6
+
+
+def accepted_carrier(crng, c: str, exact: bool) -> str:
+    """a numpy scalar that is the RESULT OF A REDUCTION (arr.sum(), arr.max(), arr.mean()): a scalar like any other"""
+    f = Fraction(c)
+    if f.denominator == 1:
+        pool = ["red:sum:int64", "red:max:int64", "red:mean:int64", "red:mean:float64"]
+        if fits(f, "int32"):
+            pool.append("red:max:int32")
+    else:
+        pool = ["red:mean:float64", "red:max:float64", "red:sum:float64"]
+        if exact and fits(f, "float32"):
+            pool.append("red:max:float32")
+    return crng.choice(pool)
+
+
+def two_outcome_carrier(crng, c: str, exact: bool):
+    """(c, kind) of a carrier on which the property text does not fix whether it counts as a scalar or as an array operand
+    (0-d arrays) or as a number at all (bool, Fraction, Decimal): either the call is refused and nothing changes, or it is
+    carried out and then it is linear in everything"""
+    f = Fraction(c)
+    r = crng.random()
+    if r < 0.62:
+        pool = ["0d:float64", "0d:float64", "red0d:float64"]
+        if f.denominator == 1:
+            pool += ["0d:int64", "0d:int64", "red0d:int64"] + (["0d:int32"] if fits(f, "int32") else [])
+        if (exact or f.denominator == 1) and fits(f, "float32"):
+            pool.append("0d:float32")
+        return c, crng.choice(pool)
+    if r < 0.76:
+        return "1", crng.choice(["pybool", "npbool"])
+    if r < 0.88:
+        return c, "fraction"
+    return (c if decimal_ok(f) else crng.choice(["2", "1/2", "4", "1/4"])), "decimal"
 
 
 def pick_scalar(rng, exact: bool, divide: bool = False):
@@ -25,20 +103,73 @@ def pick_scalar(rng, exact: bool, divide: bool = False):
     return rs(c), rng.choice(FLT_KINDS if exact else ["pyfloat", "float64"])
 
 
+def spelled(op) -> str:
+    """the call as a reader would write it"""
+    c = f"{op.get('k')}({op.get('c')})"
+    return {"mul": f"{c} * h" if op.get("reflected") else f"h * {c}", "imul": f"h *= {c}", "div": f"h / {c}",
+            "idiv": f"h /= {c}"}.get(op["op"], op["op"])
+
+
+def untouched(before, after):
+    """None when every histogram that existed before the (refused) call is what it was -- the content type apart, which the
+    unchanged library may already have widened losslessly -- otherwise what changed"""
+    drop = lambda r: {x: y for x, y in r.items() if "dtype" not in x} if isinstance(r, dict) else r
+    for i, r in enumerate(before):
+        a = after[i] if i < len(after) else None
+        if drop(r) != drop(a):
+            keys = [x for x in (r or {}) if "dtype" not in x and (a or {}).get(x) != r.get(x)] if isinstance(r, dict) and isinstance(a, dict) else ["(gone)"]
+            return f"register {i} changed in {keys[:4]}"
+    return None
+
+
+def free_modes(ops):
+    """for every op of a free-arithmetics history: is free arithmetics on where it stands (the innermost enclosing block
+    decides; off outside every block).  Markers: enter_free counts as inside its block, leave_free as well."""
+    stack, out = [], []
+    for o in ops:
+        if o["op"] == "enter_free":
+            stack.append(bool(o.get("value", True)))
+        out.append(stack[-1] if stack else False)
+        if o["op"] == "leave_free":
+            stack.pop()
+    return out
+
+
+def free_story(ops, k):
+    """what happened to the switch before op k, for the reader of a failure"""
+    told = []
+    for o in ops[:k]:
+        if o["op"] == "enter_free":
+            told.append(f"enter({o.get('value', True)})")
+        elif o["op"] == "leave_free":
+            told.append("left:" + o["how"] + ("+uncaught-through-the-outer-block" if o.get("through") else ""))
+    return "after " + ", ".join(told) if told else "no block so far"
+
+
 class C06(Hist1Prop):
     ID = "C06"
     GEN_TIE = ["statistics"]     # definitions regenerated from physt/statistics.py (harness/gen_tie.py)
-    N_QUICK = 300
-    N_THOROUGH = 8000
+    N_QUICK = 360          # 12 cases in a round: the ten older kinds of case keep their count, two new kinds are added
+    N_THOROUGH = 9600
     RULE = ("1-D histograms (from data with weights, or from bare contents with custom errors and missed values, int and float "
             "dtypes, keep_missed on/off) x chains of *, /, *=, /=, c*h by python / numpy int / float scalars (bit-exact stream: "
             "small contents, factors 2^k and small ints; tolerance stream: arbitrary finite factors), normalize(percent, "
             "inplace), then the refused operand kinds (histogram, array, scalar/histogram, negative factor, zero divisor). "
+            "stream:carriers (a third of the 1-D and N-d chains): the factor of a step as the numpy scalar a reduction returns, and "
+            "beside the step the same factor as a 0-d array / bool / Fraction / Decimal in every spelling (refused with nothing "
+            "changed, or linear in contents, errors, missed values AND statistics); stream:filled: histograms entered by fill / "
+            "fill_n; stream:free_history: nested enable_free_arithmetics(True/False) blocks left normally, by an exception, by "
+            "a refused h*h / h/h / 2/h (also uncaught through the outer block), negative factors and array operands inside "
+            "(accepted) and after the blocks (refused, nothing changed); every case runs in a context of its own. "
             "non-trivial = non-zero contents and a factor != 1; distinct = hash of the op list")
     FIELDS = {"bins", "freq", "err2", "under", "over", "inner", "total", "dtype", "stats", "keep"}
 
     def gen_case(self, rng, k, tier):
-        r = k % 10
+        r = k % 12
+        if r == 10:          # histories of the free-arithmetics switch (two in three 1-D, one in three N-d)
+            return self.gen_free_history(rng, nd=(k // 12) % 3 == 2)
+        if r == 11:          # histograms entered by fill / fill_n (valid statistics), every scaling with an unusual carrier
+            return self.gen_filled(rng)
         if r == 7:
             return self.gen_collection(rng)
         if r in (8, 9):
@@ -87,15 +218,85 @@ class C06(Hist1Prop):
         bad = rng.choice(["mul_hist", "imul_hist", "div_hist", "idiv_hist", "rdiv", "mul_array", "div_array", "imul_array",
                           "neg_mul", "neg_div", "zero_div", "neg_imul"])
         src = {"init": init, "steps": steps, "bad": bad, "exact": exact}
+        # (drawn last, from a generator of its own: the older draws of the case are what they were)
+        self.decorate_steps(src, random.Random(rng.random()), share=0.35)
         return self.build(src)
 
-    def diff(self, case, model_ok, io):
-        d = super().diff(case, model_ok, io)
-        if "zero_bin" in case.get("tags", []):
-            # a bin that is empty in every member divides by zero: numpy yields NaN / inf there (physt's docstring says
-            # so), the rational model 0; those entries, and totals containing them, are not compared
-            d = [x for x in d if not ("impl=None" in x or "impl='inf'" in x or "impl='-inf'" in x or ".total" in x)]
-        return d
+    # ------------------------------------------------------------------ unusual carriers of the factor / divisor
+    @staticmethod
+    def decorate_steps(src, crng, share, p_accept=0.3, p_side=0.45):
+        """stream:carriers -- for the scaling steps of a 1-D chain: the factor as the numpy scalar a reduction returns (same
+        step, other carrier), and beside the step the same factor as a 0-d array / bool / Fraction / Decimal in a random
+        spelling (a side step: its result is never an operand, so the chain goes on whether it is refused or not)"""
+        if crng.random() >= share:
+            return
+        exact = src["exact"]
+        out, n = [], 0
+        for st in src["steps"]:
+            if st["t"] in ("mul", "rmul", "imul", "div", "idiv", "mul_div") and st.get("k") in PLAIN_KINDS:
+                r = crng.random()
+                if r < p_accept:
+                    st = dict(st, k=accepted_carrier(crng, st["c"], exact))
+                    n += 1
+                elif r < p_accept + p_side:
+                    t = crng.choice(["mul", "rmul", "imul", "div", "idiv"])
+                    c0 = st["c"]
+                    if exact and t in ("div", "idiv") and not power_of_two(Fraction(c0)):
+                        c0 = crng.choice(["2", "4", "8", "1/2", "1/4"])       # quotients of the bit-exact stream stay exact
+                    c, kd = two_outcome_carrier(crng, c0, exact)
+                    if kd == "fraction" and t == "idiv" and not ENABLE_INPLACE_DIV_BY_FRACTION:
+                        t = "div"
+                    side = {"t": t, "c": c, "k": kd, "side": True}
+                    n += 1
+                    if crng.random() < 0.5:
+                        out += [side, st]
+                    else:
+                        out += [st, side]
+                    continue
+            out.append(st)
+        src["steps"] = out
+        if crng.random() < 0.3:
+            # a NEGATIVE factor in a 0-d array: refused whichever way a 0-d array is looked at
+            src["extra_bad"] = [{"t": crng.choice(["mul", "rmul", "imul", "div", "idiv"]), "c": crng.choice(["-2", "-1/2", "-1"]),
+                                 "k": crng.choice(["0d:float64", "red0d:float64"])}]
+            n += 1
+        if n:
+            src["carriers"] = True
+
+    def gen_filled(self, rng):
+        """stream:filled -- a histogram without contents entered value by value / batch by batch (so its statistics are
+        valid), then a chain of scalings in which nearly every factor comes in an unusual carrier"""
+        exact = rng.random() < 0.8
+        pairs = dy_bins(rng)
+        b = gen1.binning_json(pairs, rng=rng, form="pairs")
+        init = {"op": "empty", "out": 0, "binning": b, "keep": rng.random() < 0.8,
+                "dtype": rng.choice([None, None, "int64", "float64", "float32"])}
+        isint = init["dtype"] in (None, "int64")
+        pre = []
+        for _ in range(rng.randint(1, 4)):
+            if rng.random() < 0.5:
+                v = round(gen1.values_for(rng, pairs, 1, nan_share=0)[0] * 8) / 8
+                if abs(v) >= 1000:
+                    continue
+                w = rng.choice([1, 1, 2, 3] if isint else [1, 1, 2, 0.5, 1.5])
+                pre.append({"op": "fill", "h": 0, "v": rs(v), "w": rs(w), "wk": "pyint" if isinstance(w, int) else "pyfloat",
+                            "default_w": w == 1 and rng.random() < 0.5})
+            else:
+                vs = [round(v * 8) / 8 for v in gen1.values_for(rng, pairs, rng.choice([1, 2, 4]), nan_share=0) if abs(v) < 1000]
+                ws = None if rng.random() < 0.5 else [rs(rng.choice([1, 2, 3] if isint else [1, 2, 0.5, 0.25])) for _ in vs]
+                pre.append({"op": "fill_n", "h": 0, "vs": gen1.enc_vals(vs), "ws": ws, "wkind": "int64" if isint else "float64"})
+        steps = []
+        for _ in range(rng.randint(1, 4)):
+            kind = rng.choice(["mul", "rmul", "imul", "div", "idiv", "mul_div"])
+            c, kd = pick_scalar(rng, exact, divide=kind in ("div", "idiv", "mul_div"))
+            steps.append({"t": kind, "c": c, "k": kd})
+        if rng.random() < 0.3:
+            steps.append({"t": "normalize", "percent": rng.random() < 0.4, "inplace": rng.random() < 0.4})
+        bad = rng.choice(["mul_hist", "div_hist", "rdiv", "mul_array", "div_array", "imul_array", "neg_mul", "neg_div",
+                          "zero_div", "neg_imul"])
+        src = {"init": init, "prefill": pre, "steps": steps, "bad": bad, "exact": exact, "filled": True}
+        self.decorate_steps(src, random.Random(rng.random()), share=1.0, p_accept=0.35, p_side=0.6)
+        return self.build(src)
 
     # ------------------------------------------------------------------ collection.normalize_bins
     def gen_collection(self, rng):
@@ -209,11 +410,63 @@ class C06(Hist1Prop):
                 if not inplace:
                     cur = cur_new
         bad = rng.choice(["neg_mul", "zero_div", "none", "none"])
+        tags = ["nd", f"d:{d}", "bad:" + bad]
+        # (drawn last, from a generator of its own: the older draws of the case are what they were)
+        ops, nxt = self.decorate_nd(ops, nxt, random.Random(rng.random()), tags, share=0.35)
         if bad == "neg_mul":
             ops.append({"op": "mul", "h": 0, "c": "-2", "k": "pyint", "out": nxt, "expect_refused": True})
         elif bad == "zero_div":
             ops.append({"op": "idiv", "h": cur, "c": "0", "k": "pyint", "expect_refused": True})
-        return {"kind": "histn", "ops": ops, "tags": ["nd", f"d:{d}", "bad:" + bad], "tolerance": True, "sub": "nd"}
+        return {"kind": "histn", "ops": ops, "tags": tags, "tolerance": True, "sub": "nd"}
+
+    @staticmethod
+    def decorate_nd(ops, nxt, crng, tags, share, p_accept=0.3, p_side=0.45):
+        """stream:carriers on an N-d chain (see decorate_steps): side operations write to registers of their own"""
+        if crng.random() >= share:
+            return ops, nxt
+        out, n = [], 0
+        for op in ops:
+            if op["op"] in SCALINGS and op.get("k") in PLAIN_KINDS and not op.get("expect_refused"):
+                r = crng.random()
+                if r < p_accept:
+                    op = dict(op, k=accepted_carrier(crng, op["c"], True))
+                    n += 1
+                elif r < p_accept + p_side:
+                    c, kd = two_outcome_carrier(crng, op["c"], True)
+                    t = crng.choice(["mul", "rmul", "imul", "div", "idiv"])
+                    if kd == "fraction" and t == "idiv" and not ENABLE_INPLACE_DIV_BY_FRACTION:
+                        t = "div"
+                    before = crng.random() < 0.5
+                    # before the step: on its operand; after it: on its result
+                    h = op["h"] if before else op.get("out", op["h"])
+                    side = {"op": {"rmul": "mul"}.get(t, t), "h": h, "c": c, "k": kd, "two": True}
+                    if t in ("mul", "rmul", "div"):
+                        side["out"] = nxt
+                        nxt += 1
+                    if t == "rmul":
+                        side["reflected"] = True
+                    n += 1
+                    out += [side, op] if before else [op, side]
+                    continue
+            out.append(op)
+        if crng.random() < 0.3:
+            t = crng.choice(["mul", "rmul", "imul", "div", "idiv"])
+            last = [o for o in out if "out" in o and not o.get("two")][-1]["out"]
+            neg = {"op": {"rmul": "mul"}.get(t, t), "h": last, "c": crng.choice(["-2", "-1/2", "-1"]),
+                   "k": crng.choice(["0d:float64", "red0d:float64"]), "expect_refused": True}
+            if t in ("mul", "rmul", "div"):
+                neg["out"] = nxt
+                nxt += 1
+            if t == "rmul":
+                neg["reflected"] = True
+            out.append(neg)
+            n += 1
+        if n:
+            tags.append("stream:carriers")
+            tags += sorted({"carrier:" + o["k"].split(":")[0] + ("" if ":" not in o["k"] else ":" + o["k"].split(":")[-1])
+                            for o in out if is_carrier(o.get("k"))})
+            tags += sorted({"carrier_spelling:" + ("rmul" if o.get("reflected") else o["op"]) for o in out if o.get("two")})
+        return out, nxt
 
     def oracle_nd(self, case, io):
         outs, ops = io["outs"], case["ops"]
@@ -238,6 +491,11 @@ class C06(Hist1Prop):
                 if ret != "REFUSED" and (op["c"] == "0" or nonzero):
                     fails.append(f"accepted_invalid: {op['op']} by {op['c']} was accepted")
                 continue
+            if ret == "REFUSED" and op.get("two"):
+                # a carrier the library need not take for a scalar: refused is fine, as long as NOTHING has happened
+                if untouched(before, after) is not None:
+                    fails.append(f"refused_changed: ND {spelled(op)} was refused but {untouched(before, after)}")
+                continue
             if ret == "REFUSED":
                 if op["op"] == "normalize" and Fraction(src["total"]) == 0:
                     return fails[:6]
@@ -245,21 +503,19 @@ class C06(Hist1Prop):
                 return fails[:6]
             inplace = op["op"] in ("imul", "idiv") or op.get("inplace")
             dst = after[op["h"]] if inplace else after[op["out"]]
+            if dst is None:
+                fails.append(f"no_result: ND {spelled(op)} returned without a result")
+                return fails[:6]
+            if op["op"] in SCALINGS:
+                self.scaling_fails_nd(op, src, dst, after[op["h"]], fails)
+                continue
             if not inplace and after[op["h"]] != src:
                 fails.append(f"operand_modified: {op['op']} modified its operand")
             if dst["bins"] != src["bins"] or dst["names"] != src["names"]:
                 fails.append(f"bins_changed: {op['op']} changed bins or axis names")
             F0 = [Fraction(x) for x in src["freq"]]; E0 = [Fraction(x) for x in src["err2"]]
             F1 = [Fraction(x) for x in dst["freq"]]; E1 = [Fraction(x) for x in dst["err2"]]
-            if op["op"] in ("mul", "imul", "div", "idiv"):
-                c = Fraction(op["c"]); g = c if op["op"] in ("mul", "imul") else 1 / c
-                if not all(close(x * g, y) for x, y in zip(F0, F1)):
-                    fails.append(f"scale_content: ND {op['op']} by {op['c']}: contents {src['freq']} became {dst['freq']}")
-                if not all(close(x * g * g, y) for x, y in zip(E0, E1)):
-                    fails.append(f"scale_err2: ND {op['op']} by {op['c']}: squared errors {src['err2']} became {dst['err2']}")
-                if src["missed"] is not None and dst["missed"] is not None and not close(Fraction(src["missed"]) * g, Fraction(dst["missed"])):
-                    fails.append(f"scale_missed: ND {op['op']} by {op['c']}: missed {src['missed']} became {dst['missed']}")
-            elif op["op"] == "normalize":
+            if op["op"] == "normalize":
                 want = 100 if op.get("percent") else 1
                 t0 = sum(F0)
                 if not close(sum(F1), Fraction(want)):
@@ -290,14 +546,459 @@ class C06(Hist1Prop):
                 break
         return fails[:6]
 
+    # ------------------------------------------------------------------ histories of the free-arithmetics switch
+    LEAVES = ["normal", "raise", "refused:mul_hist", "refused:div_hist", "refused:rdiv", "refused:imul_hist", "refused:idiv_hist"]
+
+    def gen_free_history(self, rng, nd):
+        """stream:free_history -- `with config.enable_free_arithmetics(v):` blocks (nested, v True or False) that are left
+        normally, by an exception raised inside, or by an operation that is refused in every mode (h*h, h/h, 2/h); negative
+        factors and array operands inside the blocks (accepted where the innermost block says True) and OUTSIDE them, after
+        each block (refused again: free arithmetics is off by default), next to ordinary positive scalings everywhere"""
+        if nd:
+            d = rng.choice([2, 2, 3])
+            axes = [gennd.axis_binning(rng, maxbins=3, allow_fixed=False) for _ in range(d)]
+            n = 1
+            for a in axes:
+                n *= len(a[1])
+            dt = rng.choice(["int64", "float64", "int32", "float32"])
+            isint = dt.startswith("int")
+            f = [rng.randint(0, 12) if isint else rng.randint(0, 48) / 4 for _ in range(n)]
+            f[rng.randrange(n)] = 3 if isint else 2.5          # some content: the refusals are then mandatory
+            e = None if rng.random() < 0.5 else [rng.randint(0, 20) if isint else rng.randint(0, 80) / 4 for _ in range(n)]
+            init = {"op": "of_arrays", "out": 0, "axes": [a[0] for a in axes], "freq": [rs(x) for x in f],
+                    "err2": None if e is None else [rs(x) for x in e], "missed": rs(rng.randint(0, 5)), "dtype": dt,
+                    "keep": rng.random() < 0.85, "names": [f"ax{i}" for i in range(d)]}
+        else:
+            pairs = dy_bins(rng)
+            b = gen1.binning_json(pairs, rng=rng, form="pairs")
+            nb = len(pairs)
+            if rng.random() < 0.6:      # from data: valid statistics
+                vals = [round(v * 8) / 8 for v in gen1.values_for(rng, pairs, rng.choice([3, 6, 10]), nan_share=0) if abs(v) < 1000]
+                l, r = pairs[rng.randrange(nb)]
+                vals.append(l + (r - l) / 2)                    # some content
+                ws, wk = gen1.weights_for(rng, len(vals), kinds=["none", "int", "dyadic"])
+                if ws is not None:
+                    ws[-1] = 2
+                init = {"op": "construct", "out": 0, "binning": b, "data": gen1.enc_vals(vals),
+                        "weights": None if ws is None else [rs(w) for w in ws], "wkind": wk, "keep": rng.random() < 0.8}
+            else:
+                dt = rng.choice(["int64", "int32", "float64", "float32", "int64"])
+                isint = dt.startswith("int")
+                f = [rng.randint(0, 40) if isint else rng.randint(0, 160) / 4 for _ in range(nb)]
+                f[rng.randrange(nb)] = 3 if isint else 2.5
+                e = None if rng.random() < 0.4 else [rng.randint(0, 60) if isint else rng.randint(0, 200) / 4 for _ in range(nb)]
+                miss = [rng.randint(0, 9) if isint else rng.randint(0, 36) / 4 for _ in range(3)]
+                init = {"op": "of_arrays", "out": 0, "binning": b, "freq": [rs(x) for x in f],
+                        "err2": None if e is None else [rs(x) for x in e], "under": rs(miss[0]), "over": rs(miss[1]),
+                        "inner": rs(miss[2]), "dtype": dt, "keep": rng.random() < 0.85}
+
+        def pos():
+            t = rng.choice(["mul", "rmul", "imul", "div", "idiv"])
+            c, kd = pick_scalar(rng, True, divide=t in ("div", "idiv"))
+            if rng.random() < 0.25:
+                kd = accepted_carrier(rng, c, True)
+            return {"t": "pos", "sp": t, "c": c, "k": kd}
+
+        def probe():
+            r = rng.random()
+            if r < 0.55:
+                c = rng.choice([-2, -1, -4, -0.5, -0.25, -2.0])
+                kd = rng.choice(["pyint", "int64", "int32"]) if isinstance(c, int) else rng.choice(["pyfloat", "float64", "float32"])
+                return {"t": "neg", "sp": rng.choice(["mul", "rmul", "imul", "div", "idiv"]), "c": rs(c), "k": kd}
+            return {"t": "arr", "sp": rng.choice(["mul", "rmul", "imul", "div", "idiv"]),
+                    "operand": rng.choice(["ones", "twos", "int_ones", "list_ones", "halves"])}
+
+        def caught():            # refused in every mode; the exception is caught where it is raised
+            return {"t": "bad", "what": rng.choice(["mul_hist", "div_hist", "rdiv"])}
+
+        def block(depth):
+            value = True if depth == 0 else rng.random() < 0.55
+            body = []
+            for _ in range(rng.randint(0, 3)):
+                r = rng.random()
+                if r < 0.45:
+                    body.append(probe())
+                elif r < 0.65:
+                    body.append(pos())
+                elif r < 0.8:
+                    body.append(caught())
+                elif depth < 2:
+                    body.append(block(depth + 1))
+            how = rng.choice(self.LEAVES if rng.random() < 0.75 else ["normal"])
+            blk = {"t": "block", "value": value, "body": body, "how": how}
+            if how != "normal" and depth > 0 and rng.random() < 0.5:
+                blk["through"] = True       # nobody catches the exception between this block and the enclosing one
+            return blk
+
+        items = [pos() for _ in range(rng.randint(0, 2))]
+        for _ in range(rng.randint(1, 3)):
+            items.append(block(0))
+            for _ in range(rng.randint(1, 3)):
+                items.append(probe() if rng.random() < 0.8 else pos())
+        return self.build_free({"init": init, "items": items, "nd": nd})
+
+    @staticmethod
+    def build_free(src):
+        """the flat op list of a free-arithmetics history.  Inside a block whose value is True the negative / array
+        operations act on a COPY when they are in-place (the history goes on with non-negative contents); those operations
+        and their copies are marked `untracked`: the Lean model has no free arithmetics, it follows everything else."""
+        nd = src["nd"]
+        ops = [src["init"]]
+        st = {"cur": 0, "nxt": 1}
+        leaves = Counter()
+
+        def fresh():
+            st["nxt"] += 1
+            return st["nxt"] - 1
+
+        def emit(items, mode, depth):
+            for pos_in_body, it in enumerate(items):
+                t = it["t"]
+                if t == "block":
+                    ops.append({"op": "enter_free", "value": it["value"], "h": st["cur"]})
+                    through_inner = emit(it["body"], it["value"], depth + 1)
+                    how = "propagated" if through_inner else it["how"]
+                    last = pos_in_body == len(items) - 1
+                    through = bool(it.get("through")) and depth > 0 and last and how != "normal"
+                    ops.append({"op": "leave_free", "how": how, "through": through, "h": st["cur"], "o": 0})
+                    leaves[how.split(":")[0] + ("+through" if through else "")] += 1
+                    if through:
+                        return True
+                    continue
+                sp = it["sp"] if "sp" in it else None
+                inplace = sp in ("imul", "idiv")
+                if t == "pos":
+                    op = {"op": {"rmul": "mul"}.get(sp, sp), "h": st["cur"], "c": it["c"], "k": it["k"]}
+                    if sp == "rmul":
+                        op["reflected"] = True
+                    if not inplace:
+                        op["out"] = fresh()
+                        st["cur"] = op["out"]
+                    ops.append(op)
+                elif t == "bad":
+                    ops.append({"op": "invalid", "what": it["what"], "h": st["cur"], "o": 0})
+                else:
+                    h = st["cur"]
+                    untracked = bool(mode)
+                    if mode and inplace:
+                        h = fresh()
+                        ops.append({"op": "copy", "h": st["cur"], "out": h, "untracked": True})
+                    if t == "neg":
+                        op = {"op": {"rmul": "mul"}.get(sp, sp), "h": h, "c": it["c"], "k": it["k"], "probe": "neg"}
+                        if sp == "rmul":
+                            op["reflected"] = True
+                    else:
+                        op = {"op": "arr", "sp": sp, "operand": it["operand"], "h": h, "probe": "arr"}
+                    if not inplace:
+                        op["out"] = fresh()
+                    if untracked:
+                        op["untracked"] = True
+                    ops.append(op)
+            return False
+
+        emit(src["items"], False, 0)
+        tags = ["stream:free_history", "free:nd" if nd else "free:1d"] + [f"leave:{k}" for k in sorted(leaves)]
+        modes = free_modes(ops)
+        tags += sorted({f"probe_{'inside' if modes[i] else 'outside'}:{o['probe']}" for i, o in enumerate(ops) if o.get("probe")})
+        if any(o["op"] == "enter_free" and not o["value"] for o in ops):
+            tags.append("free:block_false")
+        return {"kind": "histn" if nd else "hist1", "ops": ops, "tags": tags, "tolerance": True, "sub": "free", "src": src}
+
+    # the implementation side of such a history (the blocks are real `with` statements around the ops of impl1 / implnd)
+    def run_free(self, case, observe=True):
+        import numpy as np
+        from physt.config import config
+        from .. import impl1, implnd
+        nd = case["kind"] == "histn"
+        stepper = implnd.step if nd else impl1._step
+        snap = implnd.snapn if nd else impl1.snap1
+        ops = case["ops"]
+        s = impl1.Store()
+        log: list = []
+        outs: list = [None] * len(ops)
+
+        def record(i, ret):
+            if observe:
+                outs[i] = {"ret": ret, "regs": [None if h is None else snap(h) for h in s.regs]}
+            else:
+                outs[i] = {"ret": ret}
+
+        def arr_step(op):
+            sp = op["sp"]
+            try:
+                h = s.get(op["h"])          # (a register that a refused call never made: refused, as in impl1 / implnd)
+                if h is None:
+                    raise IndexError("empty register")
+                a = {"ones": np.ones(h.shape), "twos": 2 * np.ones(h.shape), "halves": np.ones(h.shape) / 2,
+                     "int_ones": np.ones(h.shape, dtype=int), "list_ones": np.ones(h.shape).tolist()}[op["operand"]]
+                if sp == "mul":
+                    s.set(op["out"], h * a)
+                elif sp == "rmul":
+                    s.set(op["out"], a * h)
+                elif sp == "div":
+                    s.set(op["out"], h / a)
+                elif sp == "imul":
+                    h *= a
+                    s.set(op["h"], h)
+                elif sp == "idiv":
+                    h /= a
+                    s.set(op["h"], h)
+                else:
+                    raise KeyError(sp)
+                return "ok"
+            except KeyError:
+                raise
+            except Exception as e:
+                log.append(f"arr {sp}: {type(e).__name__}: {e}"[:200])
+                return impl1.REFUSED
+
+        def refused_uncaught(what, op):
+            """an operation that is refused in every mode, NOT caught here: its exception leaves the block"""
+            h, o = s.get(op["h"]), s.get(op["o"])
+            if what == "mul_hist":
+                h * o
+            elif what == "div_hist":
+                h / o
+            elif what == "rdiv":
+                2 / h
+            elif what == "imul_hist":
+                h *= o
+            elif what == "idiv_hist":
+                h /= o
+            else:
+                raise KeyError(what)
+
+        class Left(Exception):
+            pass
+
+        def run_block(i):
+            """ops[i] enters a block; returns (index after its leave_free, the exception still travelling or None)"""
+            state = {"leaving": False, "j": None}
+            ret, exc = "normal", None
+            try:
+                with config.enable_free_arithmetics(ops[i].get("value", True)):
+                    record(i, "ok")
+                    k = i + 1
+                    while ops[k]["op"] != "leave_free":
+                        if ops[k]["op"] == "enter_free":
+                            k, inner = run_block(k)
+                            if inner is not None:
+                                if ops[k]["op"] != "leave_free":
+                                    raise KeyError("a travelling exception needs the enclosing block to end here")
+                                state["j"], state["leaving"] = k, True
+                                raise inner
+                        else:
+                            record(k, arr_step(ops[k]) if ops[k]["op"] == "arr" else stepper(s, ops[k], log))
+                            k += 1
+                    state["j"] = k
+                    how = ops[k]["how"]
+                    state["leaving"] = True
+                    if how == "raise":
+                        raise Left("raised inside the block")
+                    if how.startswith("refused:"):
+                        refused_uncaught(how[8:], ops[k])
+                        ret = "accepted"
+            except KeyError:
+                raise
+            except Exception as e:
+                if not state["leaving"]:
+                    raise
+                ret, exc = "exception", e
+                log.append(f"block left by {type(e).__name__}: {e}"[:160])
+            j = state["j"]
+            record(j, ret)
+            return j + 1, (exc if ops[j].get("through") else None)
+
+        k = 0
+        while k < len(ops):
+            if ops[k]["op"] == "enter_free":
+                k, exc = run_block(k)
+                if exc is not None:
+                    raise KeyError("an exception left the outermost block uncaught")
+            else:
+                record(k, arr_step(ops[k]) if ops[k]["op"] == "arr" else stepper(s, ops[k], log))
+                k += 1
+        final = {"ret": outs[-1]["ret"], "regs": [None if h is None else snap(h) for h in s.regs]}
+        return outs, log, final
+
+    def run_impl(self, case):
+        # every case in a context of its own, with the switch where a fresh session has it: whatever a case (or a broken
+        # library) does to the switch cannot reach the next case
+        return contextvars.copy_context().run(self._run_impl, case)
+
+    def _run_impl(self, case):
+        from physt.config import config
+        config.free_arithmetics = False
+        if case.get("sub") == "free":
+            outs, log, _ = self.run_free(case, observe=True)
+            config.free_arithmetics = False
+            _, _, final = self.run_free(case, observe=False)
+            return {"outs": outs, "log": log, "unobserved_outs": outs[:-1] + [final]}
+        return super().run_impl(case)
+
+    # the model side: everything but the switch
+    @staticmethod
+    def model_op(op):
+        """the op as the Lean driver can express it; "drop" when it cannot, None when nothing in the case can be trusted to it"""
+        if op["op"] in ("enter_free", "leave_free") or op.get("untracked"):
+            return "drop"
+        if op["op"] == "arr":
+            return {"op": "invalid", "what": "array_operand", "h": op["h"]}
+        k = op.get("k")
+        if op["op"] in SCALINGS and is_carrier(k):
+            if k.startswith("red:"):
+                return dict(op, k=model_kind(k))
+            if k.startswith(("0d:", "red0d:")):
+                return {"op": "invalid", "what": "array_operand_0d", "h": op["h"]}     # an array operand: refused, nothing changes
+            return None         # bool, Fraction, Decimal: not numbers the model knows
+        return op
+
+    def model_case(self, case, io):
+        mops = [self.model_op(o) for o in case["ops"]]
+        if any(m is None for m in mops):
+            return None
+        if all(m is o for m, o in zip(mops, case["ops"])):
+            return case
+        mc = {k: v for k, v in case.items() if k not in ("ops", "src")}
+        mc["ops"] = [m for m in mops if not isinstance(m, str)]
+        return mc
+
+    def diff(self, case, model_ok, io):
+        ops = case["ops"]
+        if case.get("sub") == "free" and isinstance(model_ok, list):
+            # the model followed the ops outside free arithmetics: compare those, register by register (the registers that
+            # only the free-arithmetics operations wrote do not exist for the model)
+            keep = [i for i, o in enumerate(ops) if self.model_op(o) != "drop"]
+            hidden = {o["out"] for o in ops if o.get("untracked") and "out" in o}
+            proj = []
+            for i in keep:
+                o = io["outs"][i]
+                proj.append({"ret": o["ret"], "regs": [None if n in hidden else r for n, r in enumerate(o["regs"])]})
+            width = [max(len(a["regs"]), len(b["regs"])) for a, b in zip(model_ok, proj)] if len(model_ok) == len(proj) else []
+            for a, b, w in zip(model_ok, proj, width):
+                a["regs"] = a["regs"] + [None] * (w - len(a["regs"]))
+                b["regs"] = b["regs"] + [None] * (w - len(b["regs"]))
+            io = dict(io, outs=proj)
+        d = super().diff(case, model_ok, io)
+        if "zero_bin" in case.get("tags", []):
+            # a bin that is empty in every member divides by zero: numpy yields NaN / inf there (physt's docstring says
+            # so), the rational model 0; those entries, and totals containing them, are not compared
+            d = [x for x in d if not ("impl=None" in x or "impl='inf'" in x or "impl='-inf'" in x or ".total" in x)]
+        return d
+
+    def oracle_free(self, case, io):
+        outs, ops = io["outs"], case["ops"]
+        nd = case["kind"] == "histn"
+        fails = []
+        if outs[0]["ret"] == "REFUSED":
+            return ["refused_valid: setup refused: " + "; ".join(io["log"][:2])]
+        modes = free_modes(ops)
+        depth, dd = [], 0
+        for o in ops:
+            dd += o["op"] == "enter_free"
+            depth.append(dd)
+            dd -= o["op"] == "leave_free"
+
+        def eq(a, b, what):
+            if a is None or b is None:
+                return a is None and b is None
+            if any(isinstance(t, str) and t.lstrip("-") in ("inf", "nan") for t in (a, b)):
+                return a == b
+            x, y = Fraction(a), Fraction(b)
+            return abs(x - y) <= Fraction(1, 10**6 if nd else 10**11) * max(abs(x), abs(y), Fraction(1, 10**20))
+
+        for k, op in enumerate(ops):
+            if k == 0 or op["op"] in ("enter_free", "copy"):
+                continue
+            before, after = outs[k - 1]["regs"], outs[k]["regs"]
+            ret = outs[k]["ret"]
+            where = ("inside a free-arithmetics block" if modes[k] else
+                     ("inside a block that switches free arithmetics OFF" if depth[k] else "outside free arithmetics")
+                     + " (" + free_story(ops, k) + ")")
+            if op["op"] == "leave_free":
+                how = op["how"]
+                if how.startswith("refused:") and ret != "exception":
+                    fails.append(f"accepted_invalid: {how[8:]} was accepted {where}")
+                if how == "normal" and ret != "normal":
+                    fails.append("refused_valid: a free-arithmetics block could not be left: " + "; ".join(io["log"][-1:]))
+                if untouched(before, after) is not None:
+                    fails.append(f"refused_changed: leaving the block ({how}): {untouched(before, after)}")
+                continue
+            if op["h"] >= len(before) or before[op["h"]] is None:
+                return fails[:6]
+            src = before[op["h"]]
+            values = list(src["freq"]) + list(src["err2"])
+            if any(t is None or (isinstance(t, str) and t.lstrip("-") in ("inf", "nan")) for t in values):
+                return fails[:6]
+            nonzero = any(Fraction(x) != 0 for x in src["freq"])
+            call = spelled(op) if op["op"] in SCALINGS else (f"{op['sp']} with an array operand ({op['operand']})" if op["op"] == "arr" else op.get("what"))
+            if op["op"] == "invalid":                      # h*h, h/h, 2/h: refused in every mode
+                if ret != "REFUSED":
+                    fails.append(f"accepted_invalid: {op['what']} was accepted {where}")
+                elif untouched(before, after) is not None:
+                    fails.append(f"refused_changed: the refused {op['what']}: {untouched(before, after)}")
+                continue
+            if op.get("probe") and not modes[k]:           # negative factor / array operand without free arithmetics
+                if ret != "REFUSED":
+                    if nonzero or op["probe"] == "arr":
+                        fails.append(f"accepted_invalid: {call} was accepted {where}")
+                elif untouched(before, after) is not None:
+                    fails.append(f"refused_changed: the refused {call}: {untouched(before, after)}")
+                continue
+            if op.get("probe"):                            # ... and with it
+                if ret == "REFUSED":
+                    fails.append(f"refused_in_free: {call} was refused {where}: " + "; ".join(io["log"][-1:]))
+                    continue
+                if op["probe"] == "neg":
+                    dst = after[op["out"]] if "out" in op else after[op["h"]]
+                    keys = ("missed",) if nd else ("under", "over", "inner")
+                    c = Fraction(op["c"])
+                    g = c if op["op"] in ("mul", "imul") else 1 / c
+                    if not all(eq(rs(Fraction(x) * g), y, "f") for x, y in zip(src["freq"], dst["freq"])):
+                        fails.append(f"scale_content: {call} {where}: contents {src['freq']} became {dst['freq']}")
+                    if not all(eq(rs(Fraction(x) * g * g), y, "e") for x, y in zip(src["err2"], dst["err2"])):
+                        fails.append(f"scale_err2: {call} {where}: squared errors {src['err2']} became {dst['err2']}")
+                    for m in keys:
+                        if src[m] is not None and src[m] not in ("inf", "-inf") and not eq(rs(Fraction(src[m]) * g), dst[m], "m"):
+                            fails.append(f"scale_missed: {call} {where}: {m} {src[m]} became {dst[m]}")
+                    if "out" in op and after[op["h"]] != src:
+                        fails.append(f"operand_modified: {call} modified its operand")
+                continue
+            # an ordinary positive scaling, wherever it stands
+            if ret == "REFUSED":
+                fails.append(f"refused_valid: {call} refused {where}: " + "; ".join(io["log"][-1:]))
+                return fails[:6]
+            dst = after[op["out"]] if "out" in op else after[op["h"]]
+            if dst is None:
+                fails.append(f"no_result: {call} returned without a result")
+                return fails[:6]
+            if nd:
+                self.scaling_fails_nd(op, src, dst, after[op["h"]], fails)
+            else:
+                self.scaling_fails_1d(op, src, dst, after[op["h"]], eq, fails)
+            if len(fails) > 5:
+                break
+        return fails[:6]
+
     @staticmethod
     def build(src):
-        ops = [src["init"]]
+        ops = [src["init"]] + [dict(o) for o in src.get("prefill", [])]
         cur = 0
         nxt = 1
         for s in src["steps"]:
             t = s["t"]
-            if t in ("mul", "rmul"):
+            if s.get("side"):
+                # the factor in a carrier that may be refused: the result goes to a register nobody reads (copying
+                # spellings), or the current histogram is scaled where it stands (in-place spellings)
+                name = {"mul": "mul", "rmul": "mul", "imul": "imul", "div": "div", "idiv": "idiv"}[t]
+                op = {"op": name, "h": cur, "c": s["c"], "k": s["k"], "two": True}
+                if t in ("mul", "rmul", "div"):
+                    op["out"] = nxt
+                    nxt += 1
+                if t == "rmul":
+                    op["reflected"] = True
+                ops.append(op)
+            elif t in ("mul", "rmul"):
                 ops.append({"op": "mul", "h": cur, "c": s["c"], "k": s["k"], "out": nxt, "reflected": t == "rmul"})
                 cur, nxt = nxt, nxt + 1
             elif t == "imul":
@@ -317,6 +1018,15 @@ class C06(Hist1Prop):
                 else:
                     ops.append({"op": "normalize", "h": cur, "percent": s["percent"], "inplace": False, "out": nxt})
                     cur, nxt = nxt, nxt + 1
+        for s in src.get("extra_bad", []):
+            t = s["t"]
+            op = {"op": {"rmul": "mul"}.get(t, t), "h": cur, "c": s["c"], "k": s["k"], "expect_refused": True}
+            if t in ("mul", "rmul", "div"):
+                op["out"] = nxt
+                nxt += 1
+            if t == "rmul":
+                op["reflected"] = True
+            ops.append(op)
         bad = src["bad"]
         if bad == "neg_mul":
             ops.append({"op": "mul", "h": 0, "c": "-2", "k": "pyint", "out": nxt, "expect_refused": True})
@@ -329,10 +1039,134 @@ class C06(Hist1Prop):
         else:
             ops.append({"op": "invalid", "what": bad, "h": cur, "o": 0})
         tol = (not src["exact"]) or any(s["t"] == "normalize" for s in src["steps"])
-        return {"kind": "hist1", "ops": ops, "tags": ["exact" if src["exact"] else "tolerance", "bad:" + bad],
-                "src": src, "tolerance": tol}
+        tags = ["exact" if src["exact"] else "tolerance", "bad:" + bad]
+        if src.get("filled"):
+            tags.append("stream:filled")
+        if src.get("carriers"):
+            tags.append("stream:carriers")
+            tags += sorted({"carrier:" + o["k"].split(":")[0] + ("" if ":" not in o["k"] else ":" + o["k"].split(":")[-1])
+                            for o in ops if is_carrier(o.get("k"))})
+            tags += sorted({"carrier_spelling:" + ("rmul" if o.get("reflected") else o["op"]) for o in ops if o.get("two")})
+        return {"kind": "hist1", "ops": ops, "tags": tags, "src": src, "tolerance": tol}
+
+    # ------------------------------------------------------------------ the small finite cores, completely
+    TWO_OUTCOME = [("2", "0d:float64"), ("3", "0d:int64"), ("1/2", "0d:float32"), ("4", "0d:int32"), ("2", "red0d:float64"),
+                   ("3", "red0d:int64"), ("1", "pybool"), ("1", "npbool"), ("2", "fraction"), ("1/4", "fraction"),
+                   ("2", "decimal"), ("1/2", "decimal")]
+    ACCEPTED = [("3", "red:sum:int64"), ("5", "red:max:int32"), ("3", "red:mean:int64"), ("1/4", "red:mean:float64"),
+                ("1/2", "red:max:float32"), ("2", "red:sum:float64")]
+
+    def exhaustive_cases(self, tier):
+        """every carrier x every spelling on a histogram with valid statistics (from data, and entered by fill_n) and on a
+        2-d one; every way of leaving a free-arithmetics block (also through an enclosing block, also a block that switches
+        free arithmetics OFF inside one that switched it on) followed, outside, by every spelling of a negative factor and of
+        an array operand"""
+        b = gen1.binning_json([[0.0, 1.0], [1.0, 2.0], [2.0, 4.0]], form="pairs")
+        data = gen1.enc_vals([0.5, 1.5, 1.5, 3.0, -1.0, 7.0, 0.25])
+        inits = [{"op": "construct", "out": 0, "binning": b, "data": data, "weights": None, "wkind": None, "keep": True},
+                 {"op": "construct", "out": 0, "binning": b, "data": data, "weights": ["1", "2", "1/2", "3", "1", "1", "4"],
+                  "wkind": "float64", "keep": True}]
+        spellings = ["mul", "rmul", "imul", "div", "idiv"]
+        out = []
+        for n, (c, kd) in enumerate(self.TWO_OUTCOME + self.ACCEPTED):
+            two = (c, kd) in self.TWO_OUTCOME
+            steps = []
+            for t in spellings:
+                if kd == "fraction" and t == "idiv" and not ENABLE_INPLACE_DIV_BY_FRACTION:
+                    continue
+                steps.append({"t": t, "c": c, "k": kd, "side": True} if two else {"t": t, "c": c, "k": kd})
+            src = {"init": inits[n % 2], "steps": steps, "bad": "mul_hist", "exact": power_of_two(Fraction(c)), "carriers": True}
+            if n % 3 == 0:      # the same, on a histogram that was entered batch by batch
+                src["init"] = {"op": "empty", "out": 0, "binning": b, "keep": True, "dtype": None}
+                src["prefill"] = [{"op": "fill_n", "h": 0, "vs": data, "ws": None, "wkind": "int64"},
+                                  {"op": "fill", "h": 0, "v": "3/2", "w": "2", "wk": "pyint", "default_w": False}]
+                src["filled"] = True
+            case = self.build(src)
+            case["tags"].append("exhaustive")
+            out.append(case)
+            # N-d
+            ax = gen1.binning_json([[0.0, 1.0], [1.0, 2.0]], form="pairs")
+            ops = [{"op": "of_arrays", "out": 0, "axes": [ax, ax], "freq": ["1", "0", "2", "3"], "err2": None, "missed": "2",
+                    "dtype": "int64" if n % 2 else "float64", "keep": True, "names": ["ax0", "ax1"]}]
+            nxt = 1
+            for st in steps:
+                t = st["t"]
+                op = {"op": {"rmul": "mul"}.get(t, t), "h": 0, "c": c, "k": kd}
+                if two:
+                    op["two"] = True
+                if t in ("mul", "rmul", "div"):
+                    op["out"] = nxt
+                    nxt += 1
+                if t == "rmul":
+                    op["reflected"] = True
+                ops.append(op)
+            out.append({"kind": "histn", "ops": ops, "tags": ["nd", "d:2", "stream:carriers", "exhaustive", "carrier:" + kd],
+                        "tolerance": True, "sub": "nd"})
+        probes = [{"t": "neg", "sp": sp, "c": c, "k": kd} for sp, c, kd in
+                  [("mul", "-2", "pyint"), ("rmul", "-2", "int64"), ("imul", "-1/2", "pyfloat"), ("div", "-2", "pyint"),
+                   ("idiv", "-4", "float64")]]
+        probes += [{"t": "arr", "sp": sp, "operand": a} for sp, a in
+                   [("mul", "ones"), ("rmul", "list_ones"), ("imul", "ones"), ("div", "twos"), ("idiv", "twos")]]
+        nd_init = {"op": "of_arrays", "out": 0, "axes": [gen1.binning_json([[0.0, 1.0], [1.0, 2.0]], form="pairs")] * 2,
+                   "freq": ["1", "0", "2", "3"], "err2": None, "missed": "2", "dtype": "int64", "keep": True, "names": ["ax0", "ax1"]}
+        for nd in (False, True):
+            init = nd_init if nd else inits[1]
+            for how in self.LEAVES:
+                shapes = [
+                    [{"t": "block", "value": True, "body": [probes[0], probes[5]], "how": how}],
+                    [{"t": "block", "value": True, "how": "normal", "body": [
+                        {"t": "block", "value": False, "body": [], "how": how}, probes[1], probes[7]]}],
+                ]
+                if how != "normal":
+                    shapes.append([{"t": "block", "value": True, "how": "normal", "body": [
+                        probes[2], {"t": "block", "value": True, "body": [], "how": how, "through": True}]}])
+                for items in shapes:
+                    case = self.build_free({"init": init, "items": items + probes + [{"t": "pos", "sp": "mul", "c": "2", "k": "pyint"}],
+                                            "nd": nd})
+                    case["tags"].append("exhaustive")
+                    out.append(case)
+        return out
+
+    def neighbours(self, case):
+        """around a case on which model and implementation part: the same history with every other way of leaving its
+        blocks / the side operations in every other spelling"""
+        if case.get("sub") == "free":
+            def blocks(items):
+                for it in items:
+                    if it["t"] == "block":
+                        yield it
+                        yield from blocks(it["body"])
+            n = len(list(blocks(case["src"]["items"])))
+            for i in range(n):
+                for how in self.LEAVES:
+                    src = copy.deepcopy(case["src"])
+                    blk = list(blocks(src["items"]))[i]
+                    if blk["how"] != how:
+                        blk["how"] = how
+                        yield self.build_free(src)
+            return
+        if "src" in case and not case.get("sub"):
+            for i, st in enumerate(case["src"]["steps"]):
+                if st.get("side"):
+                    for t in ("mul", "rmul", "imul", "div", "idiv"):
+                        if t != st["t"] and not (st["k"] == "fraction" and t == "idiv" and not ENABLE_INPLACE_DIV_BY_FRACTION):
+                            src = copy.deepcopy(case["src"])
+                            src["steps"][i]["t"] = t
+                            yield self.build(src)
 
     def shrink_candidates(self, case):
+        if case.get("sub") == "free":
+            # remove one item, or unwrap / simplify one block -- always through build_free, so the case stays well-formed
+            def variants(items):
+                for i, it in enumerate(items):
+                    yield items[:i] + items[i + 1:]
+                    if it["t"] == "block":
+                        yield items[:i] + it["body"] + items[i + 1:]
+                        for body in variants(it["body"]):
+                            yield items[:i] + [dict(it, body=body)] + items[i + 1:]
+            for items in variants(case["src"]["items"]):
+                yield self.build_free(dict(copy.deepcopy(case["src"]), items=copy.deepcopy(items)))
+            return
         if case.get("sub"):
             ops = case["ops"]
             first = case.get("m", 1) + 1
@@ -346,12 +1180,89 @@ class C06(Hist1Prop):
             s2 = copy.deepcopy(src)
             del s2["steps"][i]
             yield self.build(s2)
+        for key in ("extra_bad", "prefill"):
+            for i in range(len(src.get(key, [])) - 1, -1, -1):
+                s2 = copy.deepcopy(src)
+                del s2[key][i]
+                yield self.build(s2)
+
+    @staticmethod
+    def scaling_fails_nd(op, src, dst, operand_after, fails):
+        """everything the statement pins about ONE accepted scaling of an N-d histogram"""
+        T = Fraction(1, 10**6)
+
+        def close(a, b):
+            return abs(a - b) <= T * max(abs(a), abs(b), 1)
+
+        def num(x):      # a non-finite entry equals no expected value
+            return None if x is None or (isinstance(x, str) and x.lstrip("-") in ("inf", "nan")) else Fraction(x)
+
+        if op["op"] in ("mul", "div") and operand_after != src:
+            fails.append(f"operand_modified: {op['op']} modified its operand")
+        if dst["bins"] != src["bins"] or dst["names"] != src["names"]:
+            fails.append(f"bins_changed: {op['op']} changed bins or axis names")
+        F0 = [num(x) for x in src["freq"]]; E0 = [num(x) for x in src["err2"]]
+        F1 = [num(x) for x in dst["freq"]]; E1 = [num(x) for x in dst["err2"]]
+        if None in F0 or None in E0:
+            return
+        c = Fraction(op["c"]); g = c if op["op"] in ("mul", "imul") else 1 / c
+        if not all(y is not None and close(x * g, y) for x, y in zip(F0, F1)):
+            fails.append(f"scale_content: ND {op['op']} by {op['c']}: contents {src['freq']} became {dst['freq']}")
+        if not all(y is not None and close(x * g * g, y) for x, y in zip(E0, E1)):
+            fails.append(f"scale_err2: ND {op['op']} by {op['c']}: squared errors {src['err2']} became {dst['err2']}")
+        m0, m1 = num(src["missed"]), num(dst["missed"])
+        if m0 is not None and (m1 is None or not close(m0 * g, m1)):
+            fails.append(f"scale_missed: ND {spelled(op)}: missed {src['missed']} became {dst['missed']}")
+
+    @staticmethod
+    def scaling_fails_1d(op, src_snap, dst, operand_after, eq, fails, stats=True):
+        """everything the statement pins about ONE accepted scaling of a 1-D histogram: contents and the three missed slots
+        times the factor, squared errors times its square, bins and operand untouched, and the recorded statistics (weight
+        times the factor; mean, variance, minimum, maximum as they were; still valid when they were valid)"""
+        c = Fraction(op["c"])
+        f = c if op["op"] in ("mul", "imul") else 1 / c
+        how = spelled(op)
+        if dst["bins"] != src_snap["bins"]:
+            fails.append("bins_changed: scaling changed the bins")
+        for i, (x, y) in enumerate(zip(src_snap["freq"], dst["freq"])):
+            if not eq(rs(Fraction(x) * f), y, "f"):
+                fails.append(f"scale_content: {op['op']} by {op['c']}: content {x} became {y}, expected {Fraction(x)*f}")
+                break
+        for i, (x, y) in enumerate(zip(src_snap["err2"], dst["err2"])):
+            if not eq(rs(Fraction(x) * f * f), y, "e"):
+                fails.append(f"scale_err2: {op['op']} by {op['c']}: squared error {x} became {y}, expected {Fraction(x)*f*f}")
+                break
+        for m in ("under", "over", "inner"):
+            x, y = src_snap[m], dst[m]
+            if x is not None and not eq(rs(Fraction(x) * f), y, "m"):
+                fails.append(f"scale_missed: {how}: {m} {x} became {y}, expected {Fraction(x)*f}")
+        if op["op"] in ("mul", "div") and operand_after != src_snap:
+            fails.append("operand_modified: the scaled operand was modified")
+        st0, st1 = src_snap["stats"], dst["stats"]
+        if stats and st0["valid"] and f > 0:
+            if not st1["valid"]:
+                fails.append(f"stats_lost: statistics became invalid after {how} (a {op['k']} factor)")
+            else:
+                if st0["min"] != st1["min"] or st0["max"] != st1["max"]:
+                    fails.append(f"stats_minmax: min/max changed under positive scaling ({how})")
+                if not eq(rs(Fraction(st0["weight"]) * f), st1["weight"], "w"):
+                    fails.append(f"stats_weight: weight {st0['weight']} became {st1['weight']} after scaling by {f} ({how})")
+                for g in ("mean", "variance"):
+                    if (st0[g] is None) != (st1[g] is None) and Fraction(st0["weight"]) != 0:
+                        fails.append(f"stats_{g}: {g} changed from {st0[g]} to {st1[g]} under positive scaling ({how})")
+                    if st0[g] is not None and st1[g] is not None:
+                        x, y = Fraction(st0[g]), Fraction(st1[g])
+                        scale = max(abs(x), abs(y), 1, Fraction(st0["mean"] or 0) ** 2)
+                        if abs(x - y) > Fraction(1, 10**9) * scale:
+                            fails.append(f"stats_{g}: {g} changed from {float(x)} to {float(y)} under positive scaling by {op['c']}")
 
     def oracle(self, case, io):
         if case.get("sub") == "collection":
             return self.oracle_collection(case, io)
         if case.get("sub") == "nd":
             return self.oracle_nd(case, io)
+        if case.get("sub") == "free":
+            return self.oracle_free(case, io)
         outs, ops = io["outs"], case["ops"]
         fails = []
         exact = case["src"]["exact"]
@@ -393,6 +1304,11 @@ class C06(Hist1Prop):
                     if a2 != b2:
                         fails.append("refused_changed: a refused operation changed a histogram")
                 continue
+            if outs[k]["ret"] == "REFUSED" and op.get("two"):
+                # a carrier the library need not take for a scalar: refused is fine, as long as NOTHING has happened
+                if untouched(before, after) is not None:
+                    fails.append(f"refused_changed: {spelled(op)} was refused but {untouched(before, after)}")
+                continue
             if outs[k]["ret"] == "REFUSED":
                 if op["op"] == "normalize" and Fraction(before[op["h"]]["total"]) == 0:
                     return fails[:6]
@@ -400,40 +1316,11 @@ class C06(Hist1Prop):
                 return fails[:6]
             src_snap = before[op["h"]]
             dst = after[op.get("out", op["h"])] if op["op"] in ("mul", "div") or (op["op"] == "normalize" and not op.get("inplace")) else after[op["h"]]
+            if dst is None:
+                fails.append(f"no_result: {spelled(op)} returned without a result")
+                return fails[:6]
             if op["op"] in ("mul", "imul", "div", "idiv"):
-                c = Fraction(op["c"])
-                f = c if op["op"] in ("mul", "imul") else 1 / c
-                if dst["bins"] != src_snap["bins"]:
-                    fails.append("bins_changed: scaling changed the bins")
-                for i, (x, y) in enumerate(zip(src_snap["freq"], dst["freq"])):
-                    if not eq(rs(Fraction(x) * f), y, "f"):
-                        fails.append(f"scale_content: {op['op']} by {op['c']}: content {x} became {y}, expected {Fraction(x)*f}")
-                        break
-                for i, (x, y) in enumerate(zip(src_snap["err2"], dst["err2"])):
-                    if not eq(rs(Fraction(x) * f * f), y, "e"):
-                        fails.append(f"scale_err2: {op['op']} by {op['c']}: squared error {x} became {y}, expected {Fraction(x)*f*f}")
-                        break
-                for m in ("under", "over", "inner"):
-                    x, y = src_snap[m], dst[m]
-                    if x is not None and not eq(rs(Fraction(x) * f), y, "m"):
-                        fails.append(f"scale_missed: {op['op']} by {op['c']}: {m} {x} became {y}, expected {Fraction(x)*f}")
-                if op["op"] in ("mul", "div") and after[op["h"]] != src_snap:
-                    fails.append("operand_modified: the scaled operand was modified")
-                st0, st1 = src_snap["stats"], dst["stats"]
-                if st0["valid"]:
-                    if not st1["valid"]:
-                        fails.append(f"stats_lost: statistics became invalid after {op['op']} by a {op['k']} scalar")
-                    else:
-                        if st0["min"] != st1["min"] or st0["max"] != st1["max"]:
-                            fails.append("stats_minmax: min/max changed under positive scaling")
-                        if not eq(rs(Fraction(st0["weight"]) * f), st1["weight"], "w"):
-                            fails.append(f"stats_weight: weight {st0['weight']} became {st1['weight']} after scaling by {f}")
-                        for g in ("mean", "variance"):
-                            if st0[g] is not None and st1[g] is not None:
-                                x, y = Fraction(st0[g]), Fraction(st1[g])
-                                scale = max(abs(x), abs(y), 1, Fraction(st0["mean"] or 0) ** 2)
-                                if abs(x - y) > Fraction(1, 10**9) * scale:
-                                    fails.append(f"stats_{g}: {g} changed from {float(x)} to {float(y)} under positive scaling by {op['c']}")
+                self.scaling_fails_1d(op, src_snap, dst, after[op["h"]], eq, fails)
             if op["op"] == "normalize":
                 tot = Fraction(dst["total"])
                 want = 100 if op.get("percent") else 1
